@@ -280,6 +280,10 @@ class MinFlowDecompCycles(walkmodel.AbstractWalkModelDiGraph):
     def _get_lowerbound_with_min_gen_set(self) -> int:
 
         min_gen_set_start_time = time.perf_counter()
+        # With ignored edges (this includes all original edges when flow_attr_origin is "node") neither the flow values
+        # to generate nor the total flow leaving the sources are reliable, so we do not use this lower bound.
+        if len(self.edges_to_ignore) > 0:
+            return None
         all_weights = list(set({self.G.edges[e][self.flow_attr] for e in self.G.edges() if self.flow_attr in self.G.edges[e]}))
         # Get the source_flow as the sum of the out_flow - in_flow, for all nodes
         source_flow = self._get_source_flow()
